@@ -59,6 +59,16 @@ def add_out(outs, spec, out):
 CANCEL_AFTER = [0, 1, 500, 5000, 20000, 40000, 90000]
 
 
+def _add_cancel(r, op):
+    """Cancellation after a delay - or hooked to the event log: in the loop iteration after the n-th
+    event from the operation's start, i.e. right behind whatever that event delivered (a reply that
+    has arrived but whose waiter has not run yet)."""
+    if r.random() < 0.3:
+        op["cancel_at_event"] = r.randrange(1, 14)
+    else:
+        op["cancel_after_us"] = r.choice(CANCEL_AFTER + [r.randrange(0, 250000)])
+
+
 def gen_send_op(r, driver, cats=None, p_error=0.15, allow_cancel=False, p_unsupported=0.0):
     if p_unsupported and driver in ("tridonic", "hasseb") and r.random() < p_unsupported:
         # a frame length the gateway cannot carry, with every form of the exceptions option:
@@ -72,7 +82,7 @@ def gen_send_op(r, driver, cats=None, p_error=0.15, allow_cancel=False, p_unsupp
     op = {"kind": "send", "cmd": spec, "outs": outs,
           "gap_us": r.choice([0, 0, 50, 1000, 20000])}
     if allow_cancel and r.random() < 0.15:
-        op["cancel_after_us"] = r.choice(CANCEL_AFTER + [r.randrange(0, 250000)])
+        _add_cancel(r, op)
     return op
 
 
@@ -103,7 +113,7 @@ def gen_locked_op(r, driver, cats=None, p_error=0.15, allow_cancel=False):
     op = {"kind": "locked", "cmds": specs, "outs": outs,
           "gap_us": r.choice([0, 0, 50, 1000])}
     if allow_cancel and r.random() < 0.15:
-        op["cancel_after_us"] = r.choice(CANCEL_AFTER + [r.randrange(0, 250000)])
+        _add_cancel(r, op)
     return op
 
 
@@ -135,8 +145,7 @@ def gen_seq_op(r, driver, cats=None, p_error=0.15, allow_raise=True,
     elif allow_raise and x < 0.2:
         op["raise_at"] = r.randrange(0, len(items) + 1)
     elif allow_cancel and x < 0.4:
-        op["cancel_after_us"] = r.choice([0, 1, 500, 5000, 20000, 40000, 90000,
-                                          r.randrange(0, 250000)])
+        _add_cancel(r, op)
     return op
 
 
@@ -158,6 +167,10 @@ def gen_callers(r, driver, ncallers, maxops, mix=(0.45, 0.15, 0.4), **kw):
             elif x < mix[0]:
                 ops.append(gen_send_op(r, driver, kw.get("cats"), kw.get("p_error", 0.15),
                                        kw.get("cancel_sends", False), kw.get("unsupported", 0.0)))
+                if kw.get("repeat_object") and r.random() < kw["repeat_object"] and not ops[-1].get("unsupported"):
+                    ops[-1]["same_object"] = True
+                    for _ in range(r.randrange(1, 3)):
+                        ops.append(copy.deepcopy(ops[-1]))
             elif x < mix[0] + mix[1]:
                 ops.append(gen_locked_op(r, driver, kw.get("cats"), kw.get("p_error", 0.15),
                                          kw.get("cancel_sends", False)))
@@ -222,7 +235,7 @@ def shrink(plan):
                             if pra >= np_:
                                 continue
                         yield p
-            for fld in ("raise_at", "cancel_after_us", "timeout_us", "bad_close", "progress_raise_at", "exceptions"):
+            for fld in ("raise_at", "cancel_after_us", "cancel_at_event", "timeout_us", "bad_close", "progress_raise_at", "exceptions"):
                 if op.get(fld) is not None:
                     p = copy.deepcopy(plan)
                     del p["callers"][i]["ops"][j][fld]
